@@ -222,6 +222,7 @@ class SimTransport(asyncio.Transport):
         self._resume_hook = None
         self._eof_seen = False
         self.fail_next_write: Optional[BaseException] = None
+        self.fail_next_write_keep: Optional[BaseException] = None  # a one-shot failure that leaves the connection up
         self.writes_after_close = 0
 
     # -- asyncio.Transport API -----------------------------------------------------
@@ -285,6 +286,11 @@ class SimTransport(asyncio.Transport):
             self.writes_after_close += 1
             self.net.count("write_after_close")
             return
+        if self.fail_next_write_keep is not None:
+            # injected transient failure (ENOBUFS-like): this one write raises and writes nothing, the connection stays up
+            exc, self.fail_next_write_keep = self.fail_next_write_keep, None
+            self.net.count("write_raised_transient")
+            raise exc
         self.out.write(bytes(data))
 
     def close(self):
